@@ -232,6 +232,8 @@ impl NodeController {
             };
 
             let wal = wal_key(topic, cursor.segment);
+            #[cfg(walrus_verif)]
+            crate::verif::point("read-planned", format!("{} {}", wal, cursor.delivered_in_segment)).await;
             let data_vec = if leader == self.node_id {
                 match self.forward_read(&wal, 1).await {
                     InternalResp::ReadResult { data, .. } => data,
@@ -457,6 +459,8 @@ impl NodeController {
     async fn maybe_rollover(&self, topic: &str, segment: u64) -> Result<()> {
         let wal = wal_key(topic, segment);
         let count = self.tracked_entry_count(&wal).await;
+        #[cfg(walrus_verif)]
+        crate::verif::point("rollover-count", format!("{} {}", wal, count)).await;
         if count < max_segment_entries() {
             return Ok(());
         }
